@@ -1,6 +1,7 @@
 package c19
 
 import (
+	"encoding/base64"
 	"net/url"
 	"strings"
 
@@ -102,9 +103,15 @@ func shape(method, path string, stmt string) (q url.Values, body []byte, hdrs ma
 		q.Set("fenceId", "f0")
 	case strings.HasPrefix(path, "/repo/") && (has("/records") || has("/upload")):
 		hdrs["Content-Type"] = "application/json"
-		body = []byte(`{"logs":[{"content":"hello","time":1700000000000}]}`)
+		body = []byte(`{"content":"hello","time":1700000000000}` + "\n")
 	case strings.HasPrefix(path, "/repo/"):
 		q.Set("query", "hello")
+		if has("/analytics") {
+			q.Set("query", "hello | select count(*) from ls0")
+		}
+		if has("/context") {
+			q.Set("cursor", base64.StdEncoding.EncodeToString([]byte("^1700000030000000000^0")))
+		}
 		q.Set("from", "1700000000000")
 		q.Set("to", "1700000060000")
 		q.Set("reverse", "false")
@@ -127,6 +134,7 @@ func need(method, pattern string) string {
 	if method == "OPTIONS" {
 		return "public"
 	}
+	pattern = routeClass(pattern)
 	switch pattern {
 	case "/ping", "/status":
 		return "public"
